@@ -32,7 +32,8 @@ def run(ctx):
     from dtaidistance import dtw, dtw_ndim, dtw_barycenter
     res = Result()
     res.rule = ("random collections (2..6 series, equal/unequal length, ndim 1..3, list or matrix container, integer "
-                "values) x integer initial average x masks with >= 1 selected series x window/penalty: one DBA step of "
+                "values) x integer initial average x masks with >= 1 selected series (every fifth case a collection of 9..26 series with a sparse, "
+                "block-wise empty mask as k-means produces) x window/penalty: one DBA step of "
                 "Python dba, Python dba(use_c=True), C dtw_dba via dba_loop(max_it=1) vs the Lean model (exact rational "
                 "means), plus range / fixed point / mask / objective / loop-bound laws on the implementation; "
                 "non-trivial = more than one selected series or unequal lengths")
@@ -41,6 +42,9 @@ def run(ctx):
     for k in range(n):
         nd = rng.choice([1, 1, 1, 2, 3])
         nser = rng.randint(1, 6)
+        big = k % 5 == 4          # k-means-like: larger collections with sparse masks (whole bytes of the packed mask zero)
+        if big:
+            nser = rng.randint(9, 26)
         equal = rng.random() < 0.5
         L = rng.randint(1, 6)
         lens = [L if equal else rng.randint(1, 6) for _ in range(nser)]
@@ -49,6 +53,19 @@ def run(ctx):
         c0 = [rng.randint(-4, 4) for _ in range(t * nd)] if rng.random() < 0.6 else list(series[0])
         t = len(c0) // nd
         mask = [rng.random() < 0.7 for _ in range(nser)]
+        if big:
+            mask = [rng.random() < rng.choice([0.15, 0.4]) for _ in range(nser)]
+            for blk in range(0, nser, 8):
+                if rng.random() < 0.5:
+                    for j in range(blk, min(nser, blk + 8)):
+                        mask[j] = False
+            tail = rng.randrange(8, nser)
+            mask[tail] = True
+            if rng.random() < 0.5 and nser > 8:
+                mask[8 * rng.randint(1, (nser - 1) // 8)] = True
+            res.hit("sparse_mask_large_collection")
+            if any(not any(mask[b:b + 8]) for b in range(0, nser - nser % 8, 8)):
+                res.hit("mask_with_zero_byte")
         if not any(mask):
             mask[rng.randrange(nser)] = True
         settings = {"window": rng.choice([None, None, 1, 2, 3]), "penalty": rng.choice([None, None, 1, 2]),
